@@ -5,13 +5,13 @@ import vlib
 from comp.cmdline import gen
 
 RULE = ("command lines in exact-size heap buffers (ASan redzone right after the last byte), option names likewise; "
-        "options are recording callbacks or the real helpers store_true/store_false/as_string_view/as_number<T> with canaried "
-        "exact-size targets; quick: every byte string of length <= 4 over {'\"','=',' ','a'} under 5 option tables + a sample of lengths 5..8 + "
+        "options are recording callbacks or the real helpers store_true/store_false/as_string_view/as_number<T> with "
+        "exact-size heap targets; quick: every byte string of length <= 4 over {'\"','=',' ','a'} under 5 option tables + a sample of lengths 5..8 + "
         "grammar-based longer lines with quote/space/'=' mutations; thorough: every string of length <= 6; "
         "non-trivial = distinct script whose command line contains a quote or whose run invoked at least one callback")
 TRUSTED = ["extraction: ExtrOcamlBasic only; OCaml 4.13.1; comp/cmdline/driver.ml",
            "correspondence harness comp/cmdline/harness.cpp (g++ -fsanitize=address,undefined); callbacks record (option, offset, length)",
-           "oracle: ASan/UBSan, termination (timeout), callback views inside the command-line buffer, canaries around helper targets",
+           "oracle: ASan/UBSan, termination (timeout), callback views inside the command-line buffer, helper targets in exact-size heap objects",
            "modelled, not verified: the range-for over the option table as a list; option callbacks as output events "
            "(option targets are written only inside the callbacks of cmdline.hpp)"]
 ASSUMPTIONS = ["the command-line view and the option-name views lie inside their buffers", "fn.ptr of every option is non-null"]
